@@ -1,45 +1,56 @@
-//! Entry points for the external verification harness (cargo feature `verif-hooks`, off by default).
+//! Entry points for the external verification harness (cargo feature `verif-hooks` = all of the
+//! `verif-hooks-*` group features, off by default).
 //!
 //! Every function here is a thin wrapper that calls an existing private function and nothing else; none of
 //! them is used by the library itself.
 
+#[cfg(feature = "verif-hooks-crypto")]
 pub use crate::crypto::verif_hooks::*;
+#[cfg(feature = "verif-hooks-cm")]
 pub use crate::network::connection_manager_hooks::*;
+#[cfg(feature = "verif-hooks-conn")]
 pub use crate::network::peer_hooks::*;
+#[cfg(feature = "verif-hooks-wire")]
 pub use crate::network::wire_hooks::*;
 
-use crate::{types::HeaderMap, Request, Response};
-use bytes::Bytes;
-use std::time::Duration;
-use tower::Service;
+#[cfg(feature = "verif-hooks-timeout")]
+pub use timeout_hooks::*;
 
-pub fn try_parse_timeout(headers: &HeaderMap) -> Result<Option<Duration>, String> {
-    crate::middleware::timeout::try_parse_timeout(headers).map_err(|s| s.to_owned())
-}
+#[cfg(feature = "verif-hooks-timeout")]
+mod timeout_hooks {
+    use crate::{types::HeaderMap, Request, Response};
+    use bytes::Bytes;
+    use std::time::Duration;
+    use tower::Service;
 
-pub fn duration_to_timeout(duration: Duration) -> String {
-    crate::middleware::timeout::duration_to_timeout(duration)
-}
+    pub fn try_parse_timeout(headers: &HeaderMap) -> Result<Option<Duration>, String> {
+        crate::middleware::timeout::try_parse_timeout(headers).map_err(|s| s.to_owned())
+    }
 
-/// The inbound timeout middleware around `inner`.
-pub fn inbound_timeout<S>(
-    inner: S,
-    default_timeout: Option<Duration>,
-) -> impl Service<Request<Bytes>, Response = Response<Bytes>, Error = S::Error>
-where
-    S: Service<Request<Bytes>, Response = Response<Bytes>>,
-{
-    crate::middleware::timeout::inbound::Timeout::new(inner, default_timeout)
-}
+    pub fn duration_to_timeout(duration: Duration) -> String {
+        crate::middleware::timeout::duration_to_timeout(duration)
+    }
 
-/// The outbound timeout middleware around `inner`.
-pub fn outbound_timeout<S>(
-    inner: S,
-    default_timeout: Option<Duration>,
-) -> impl Service<Request<Bytes>, Response = S::Response, Error = crate::Error>
-where
-    S: Service<Request<Bytes>>,
-    S::Error: Into<crate::Error>,
-{
-    crate::middleware::timeout::outbound::Timeout::new(inner, default_timeout)
+    /// The inbound timeout middleware around `inner`.
+    pub fn inbound_timeout<S>(
+        inner: S,
+        default_timeout: Option<Duration>,
+    ) -> impl Service<Request<Bytes>, Response = Response<Bytes>, Error = S::Error>
+    where
+        S: Service<Request<Bytes>, Response = Response<Bytes>>,
+    {
+        crate::middleware::timeout::inbound::Timeout::new(inner, default_timeout)
+    }
+
+    /// The outbound timeout middleware around `inner`.
+    pub fn outbound_timeout<S>(
+        inner: S,
+        default_timeout: Option<Duration>,
+    ) -> impl Service<Request<Bytes>, Response = S::Response, Error = crate::Error>
+    where
+        S: Service<Request<Bytes>>,
+        S::Error: Into<crate::Error>,
+    {
+        crate::middleware::timeout::outbound::Timeout::new(inner, default_timeout)
+    }
 }
